@@ -146,10 +146,10 @@ def run_c13(ctx):
         ctx.add("traces_validated_against_impl", s["evaluations"])
     # the same law one level up: the order in which `cargo libcnb package` itself packages
     cmd = command_orders(ctx, 120 if quick else 1500)
-    if sum(1 for e in cmd if e["kind"] == "order" and len(e["order"]) >= 3) < len(cmd) // 3:
-        fails = [e for e in cmd if e["kind"] != "order"]
-        if not any(len(e["order"]) >= 1 for e in fails):
-            raise vlib.ToolError(f"cargo libcnb package printed no build order for most workspaces: {fails[:1]}")
+    # (the observation itself must work: commands that succeeded must have been seen touching their output)
+    blind = [e for e in cmd if e["rc"] == 0 and not e["order"]]
+    if len(blind) > len(cmd) // 10:
+        raise vlib.ToolError(f"the file-system observer saw nothing for {len(blind)} successful runs: {blind[:1]}")
     ctrace = os.path.join(wd, "command-orders.ndjson")
     vlib.write_ndjson(ctrace, cmd)
     bad = _validate(ctx, ctrace, "command-orders")
